@@ -30,6 +30,9 @@ CLAIMED = {
     'C04': ('6/C04', 'TLC explores every prerequisite-respecting sequence of up to 2 (quick) / 3 (thorough) transformations from every tree within the bounds with the reference operators, checking TreeOK, token preservation and the per-operation label bookkeeping; every (tree, sequence) is replayed on the real functions, the raw pointer graph is dumped after every call and TLC evaluates wf.root/links/nodup/nochildless/tokens, ret_is_root, tokens and labels.<op> on every recorded step.', 'TLC/SANY/CommunityModules; the mechanical graph dump of harness/treeio.py; PUNCT/PAIRPUNCT and head-rule tables are read from the working tree; small-scope hypothesis beyond the bounds', 'TLA+ spec (Transform.tla/TransformProps.tla) + TLC model checking of reference operators + TLC trace validation of every recorded call'),
     'C11': ('6/C11', "DeleteToks/PunctDelete/PtbDeleteTraces/InsertTerminals/SubstituteTerminals/filter as set-level reference operators (Transform.tla); TLC checks clauses untouched, renumbered, pruned, inserted_at, substituted, out_of_range_ignored, no_traces, no_indices, structure, filter on all trees x terminal files (indices -1, 0, valid, n+1, beyond; one or two rows; other sentence ids) x parameters within the bounds, then on recorded runs of the real functions with real temporary terminal files; ret_is_root and wf.* on the raw graphs.", 'TLC/SANY/CommunityModules; harness graph dump; the slash-annotation mode of ptb_delete_traces is not modelled (DESIGN section 9)', 'TLA+ spec (Transform.tla/TransformProps.tla) + TLC model checking + TLC trace validation'),
     'C10': ('6/C10', "The three transition systems are explicit TLA+ automata over (buffer, stack, deque) (Transitions.tla) with static oracles; TLC checks on every head-marked tree within the bounds that oracle output executed by the automaton rebuilds the tree, explores the automata alone (every transition sequence, complete runs build trees), and must find each named deviation. The transition list emitted by the real oracle IS the trace: TLC steps the automaton along it (one action per transition) and evaluates enabled, consumes_all, single_item, rebuilds, head_sides, sentence, file_line.", 'TLC/SANY/CommunityModules; harness graph dump; transition names split lexically; gap automaton taken from the cited paper (deque pushed back in order) - the code-private reversed order is a recorded known finding', 'TLA+ automata (Transitions.tla) + TLC model checking + TLC trace validation with one action per emitted transition'),
+    'C06': ('6/C06', "Extraction is specified on the set-based tree (Grammar.ExtractRule: func, linearization by block scanning, vertical context); TLC checks on every tree within the bounds that the linearization instantiated with the children's blocks gives the node's blocks using every block once and in order, fan-outs, counts, flow and context-free iff continuous; each tree, alone and in treebanks with repetitions, goes through the real extract and TLC compares the dumped dicts (one_rule_per_node, func, lin_instantiates, vert, counts, lexicon, fanout, contextfree_iff_continuous).", 'TLC/SANY/CommunityModules (Bags, Json); mechanical dump of the nested grammar/lexicon dicts; small-scope hypothesis beyond the bounds', 'TLA+ spec (Grammar.tla) + TLC model checking + TLC trace validation of dumped grammar state'),
+    'C07': ('6/C07', "linsub and the chain construction are transcribed as a state machine with one action per RHS element (BinStart/BinStep/BinLast); TLC builds ALL canonical LCFRS rules up to rank 4/5 and 5/7 variable occurrences and checks, for deterministic and Markovized labels and both reorderings, that the produced chain composes to the original linearization with consistent fan-outs; every enumerated rule and random treebank grammars are binarized by the real code in 10 modes and TLC searches the output grammar for a composing chain (existential, up to reordering), rank 2, unique labels, un-binarization, small rules kept.", 'TLC/SANY/CommunityModules (Bags, Json); mechanical dump of the nested grammar/lexicon dicts; small-scope hypothesis beyond the bounds', 'TLA+ spec (Grammar.tla, GrammarProps.tla) + TLC model checking + TLC trace validation'),
+    'C08': ('6/C08', "Grammars, lexicon and root labels are bags; TLC checks per-LHS totals and flow conservation (rules rewriting s + lexicon count of s = count-weighted RHS occurrences + root occurrences) for the extracted grammar and every binarized grammar (10 modes) of treebanks in which rules repeat under different parents.", 'TLC/SANY/CommunityModules (Bags, Json); mechanical dump of the nested grammar/lexicon dicts; small-scope hypothesis beyond the bounds', 'TLA+ spec (GrammarProps.tla: Flow, LhsTotals) + TLC trace validation of dumped grammar state'),
 }
 
 NOT_YET = 'check not built yet (work in progress, see DESIGN.md section 12)'
